@@ -27,7 +27,7 @@ def mk_rw_step(size):
         W = 64 if size <= 32 else 96
 
         def build():
-            src = open("/repo/aiocoap/oscore.py").read()
+            src = __import__("vf.api", fromlist=["x"]).repo_source("aiocoap/oscore.py")
             I = pysym.Interp(src, "ReplayWindow", width=W)
             return I
 
@@ -150,7 +150,7 @@ def mk_rw_init(size):
         W = 64 if size <= 32 else 96
 
         def solve(reach):
-            src = open("/repo/aiocoap/oscore.py").read()
+            src = __import__("vf.api", fromlist=["x"]).repo_source("aiocoap/oscore.py")
             I = pysym.Interp(src, "ReplayWindow", width=W)
             s_, m = z3.BitVec("seen", W), z3.BitVec("m", W)
             lim = I.bv(2 ** 40)
